@@ -26,7 +26,21 @@ def main():
     try:
         mod = importlib.import_module('props.%s' % a.prop.lower())
         if a.replay:
-            rc = mod.replay(ctx, os.path.join(common.ROOT, a.replay) if not os.path.isabs(a.replay) else a.replay)
+            rpath = os.path.join(common.ROOT, a.replay) if not os.path.isabs(a.replay) else a.replay
+            rc = mod.replay(ctx, rpath)
+            if rc is None:
+                # the case has no dedicated replay: run the check again with the recorded seed and tier and look for the same finding
+                import json
+                rec = json.load(open(rpath))
+                ctx2 = common.Ctx(a.prop, rec.get('tier', 'quick'), rec.get('seed', seed))
+                ctx2.replaying = True
+                try:
+                    mod.run(ctx2)
+                finally:
+                    ctx2.cleanup()
+                same = [v for v in ctx2.violations if v['sig'] == rec.get('signature')]
+                print('re-run with seed %s: %s' % (rec.get('seed'), ('the same finding again: ' + same[0]['what'][:300]) if same else 'the finding does not recur'))
+                rc = 1 if same else 0
         else:
             rc = mod.run(ctx)
     except subprocess_timeout() as e:
